@@ -1,34 +1,562 @@
-//! Copies the real /repo/tiny-start/src/symbols/mem.rs into OUT_DIR with exactly these textual
-//! substitutions, so that it can be `include!`d into an ordinary std binary:
-//!   1. lines that are `#[no_mangle]` / `#[unsafe(no_mangle)]` are dropped (the functions keep their
-//!      names inside `mod mem`, but no longer clash with / replace libc's memcpy… in this process);
-//!   2. inner doc comments `//!` become plain comments `//` (`include!` rejects inner docs).
+//! Copies the real mem-symbols module of the repository — /repo/tiny-start/src/symbols/mem.rs (or
+//! symbols/mem/mod.rs) AND every `.rs` file below /repo/tiny-start/src/symbols/mem/ (recursively) — into
+//! OUT_DIR/mem/ (mem.rs -> mem/mod.rs, mem/x.rs -> mem/x.rs, …: `mod x;` resolves exactly as in the repo)
+//! with exactly these textual substitutions, applied to every file alike:
+//!   1. the attributes `#[no_mangle]` / `#[unsafe(no_mangle)]` are dropped (the functions keep their names
+//!      inside `symbols::mem`, but no longer clash with / replace libc's memcpy… in this process);
+//!   2. inner doc comments `//!` become plain comments `//`.
 //! Nothing else is touched: every loop, threshold, mask and branch is the repo's.
-use std::{env, fs, path::PathBuf};
+//!
+//! Then GLUE is *appended* (never inserted) so that the harness depends on no helper name or file layout:
+//!   * the forward / backward copy routines are whatever `memcpy` / `memmove` call with their own parameters
+//!     `(dest, src, n)`: `__c08_fwd` / `__c08_bwd` are appended to the file that defines memcpy / memmove and call
+//!     that very path (so it resolves as it does there).  Not identified (inlined, different shape, …) => the
+//!     `fwd` / `bwd` operations of the harness go through `memmove`, which C requires to be right for those inputs;
+//!   * the three tuning constants, if constants named WORD_SIZE / WORD_MASK / WORD_COPY_THRESHOLD exist at module
+//!     level of any of the files, are re-exported from their file as `__C08_*`; otherwise reported as `unknown`;
+//!   * `pub mod verif` (the harness's entry points to all this) is appended to the module root.
+//! Environment C08_GLUE = all (default) | fns | consts | none switches the discovered glue off (checks/c08.py
+//! retries with less glue if a build with glue fails, so glue can never be the reason for a failed build).
+use std::{
+    env, fs,
+    path::{Path, PathBuf},
+};
 
-fn main() {
-    let repo = env::var("VERIF_REPO").unwrap_or_else(|_| "/repo".to_string());
-    let src = format!("{repo}/tiny-start/src/symbols/mem.rs");
-    println!("cargo:rerun-if-changed={src}");
-    println!("cargo:rerun-if-env-changed=VERIF_REPO");
-    let text = fs::read_to_string(&src).expect("read mem.rs");
-    let mut out = String::new();
-    let mut stripped = 0;
-    for line in text.lines() {
-        let t = line.trim();
-        if t == "#[no_mangle]" || t == "#[unsafe(no_mangle)]" {
-            stripped += 1;
+const SYMS: [&str; 5] = ["memcpy", "memmove", "memset", "memcmp", "bcmp"];
+const CONSTS: [&str; 3] = ["WORD_SIZE", "WORD_MASK", "WORD_COPY_THRESHOLD"];
+
+/// same length as `text`; comments, string and char literals blanked (newlines kept) so that braces,
+/// parentheses and identifiers found in it are code
+fn mask(text: &str) -> Vec<u8> {
+    let b = text.as_bytes();
+    let mut o = b.to_vec();
+    let n = b.len();
+    let blank = |o: &mut Vec<u8>, from: usize, to: usize| {
+        for k in from..to.min(n) {
+            if o[k] != b'\n' {
+                o[k] = b' ';
+            }
+        }
+    };
+    let is_id = |c: u8| c.is_ascii_alphanumeric() || c == b'_';
+    let mut i = 0;
+    while i < n {
+        let c = b[i];
+        if c == b'/' && i + 1 < n && b[i + 1] == b'/' {
+            let mut j = i;
+            while j < n && b[j] != b'\n' {
+                j += 1;
+            }
+            blank(&mut o, i, j);
+            i = j;
+        } else if c == b'/' && i + 1 < n && b[i + 1] == b'*' {
+            let mut depth = 1;
+            let mut j = i + 2;
+            while j < n && depth > 0 {
+                if b[j] == b'/' && j + 1 < n && b[j + 1] == b'*' {
+                    depth += 1;
+                    j += 2;
+                } else if b[j] == b'*' && j + 1 < n && b[j + 1] == b'/' {
+                    depth -= 1;
+                    j += 2;
+                } else {
+                    j += 1;
+                }
+            }
+            blank(&mut o, i, j);
+            i = j;
+        } else if c == b'"' || (c == b'r' && (i == 0 || !is_id(b[i - 1])) && {
+            let mut j = i + 1;
+            while j < n && b[j] == b'#' {
+                j += 1;
+            }
+            j < n && b[j] == b'"'
+        }) {
+            // string literal, plain or raw
+            let mut j = i;
+            let mut hashes = 0;
+            let raw = c == b'r';
+            if raw {
+                j += 1;
+                while b[j] == b'#' {
+                    hashes += 1;
+                    j += 1;
+                }
+            }
+            j += 1; // opening quote
+            loop {
+                if j >= n {
+                    break;
+                }
+                if !raw && b[j] == b'\\' {
+                    j += 2;
+                    continue;
+                }
+                if b[j] == b'"' {
+                    let mut k = j + 1;
+                    let mut h = 0;
+                    while h < hashes && k < n && b[k] == b'#' {
+                        h += 1;
+                        k += 1;
+                    }
+                    if h == hashes {
+                        j = k;
+                        break;
+                    }
+                }
+                j += 1;
+            }
+            blank(&mut o, i, j);
+            i = j;
+        } else if c == b'\'' {
+            // char literal ('x', '\n', '\u{1F600}') or lifetime ('a)
+            let mut j = i + 1;
+            if j < n && b[j] == b'\\' {
+                j += 2;
+                while j < n && b[j] != b'\'' && j < i + 12 {
+                    j += 1;
+                }
+                blank(&mut o, i, j + 1);
+                i = j + 1;
+            } else {
+                // one (possibly multi-byte) character followed by a quote => char literal
+                let mut k = j + 1;
+                while k < n && (b[k] & 0xC0) == 0x80 {
+                    k += 1;
+                }
+                if k < n && b[k] == b'\'' {
+                    blank(&mut o, i, k + 1);
+                    i = k + 1;
+                } else {
+                    i += 1; // lifetime
+                }
+            }
+        } else {
+            i += 1;
+        }
+    }
+    o
+}
+
+fn is_id(c: u8) -> bool {
+    c.is_ascii_alphanumeric() || c == b'_'
+}
+
+/// index of the bracket matching the opening one at `open` (any of ( [ { ), in masked text
+fn matching(m: &[u8], open: usize) -> Option<usize> {
+    let mut depth = 0i64;
+    for (k, &c) in m.iter().enumerate().skip(open) {
+        match c {
+            b'(' | b'[' | b'{' => depth += 1,
+            b')' | b']' | b'}' => {
+                depth -= 1;
+                if depth == 0 {
+                    return Some(k);
+                }
+            }
+            _ => {}
+        }
+    }
+    None
+}
+
+/// brace depth of every byte position (module level = 0)
+fn depths(m: &[u8]) -> Vec<i32> {
+    let mut d = 0;
+    let mut v = Vec::with_capacity(m.len());
+    for &c in m {
+        if c == b'}' {
+            d -= 1;
+        }
+        v.push(d);
+        if c == b'{' {
+            d += 1;
+        }
+    }
+    v
+}
+
+/// positions where the word `w` occurs as a whole identifier in masked text
+fn word_positions(m: &[u8], w: &str) -> Vec<usize> {
+    let wb = w.as_bytes();
+    let mut v = vec![];
+    if m.len() < wb.len() {
+        return v;
+    }
+    for i in 0..=m.len() - wb.len() {
+        if &m[i..i + wb.len()] == wb && (i == 0 || !is_id(m[i - 1])) && (i + wb.len() == m.len() || !is_id(m[i + wb.len()])) {
+            v.push(i);
+        }
+    }
+    v
+}
+
+fn skip_ws(m: &[u8], mut i: usize) -> usize {
+    while i < m.len() && m[i].is_ascii_whitespace() {
+        i += 1;
+    }
+    i
+}
+
+fn split_top(m: &[u8], lo: usize, hi: usize) -> Vec<(usize, usize)> {
+    let mut parts = vec![];
+    let mut depth = 0i32;
+    let mut start = lo;
+    for k in lo..hi {
+        match m[k] {
+            b'(' | b'[' | b'{' | b'<' => depth += 1,
+            b')' | b']' | b'}' => depth -= 1,
+            b'>' if k > lo && m[k - 1] != b'-' && m[k - 1] != b'=' => depth -= 1,
+            b',' if depth == 0 => {
+                parts.push((start, k));
+                start = k + 1;
+            }
+            _ => {}
+        }
+    }
+    if m[start..hi].iter().any(|c| !c.is_ascii_whitespace()) {
+        parts.push((start, hi));
+    }
+    parts
+}
+
+struct FnDef {
+    /// text of the parameter list (between the parentheses)
+    params_text: String,
+    /// parameter names in order
+    params: Vec<String>,
+    /// masked body, braces included
+    body: Vec<u8>,
+}
+
+/// the module-level definition `fn NAME(…) … { … }` in a file, if there is exactly one
+fn find_fn(text: &str, m: &[u8], name: &str) -> Option<FnDef> {
+    let dep = depths(m);
+    let mut found = vec![];
+    for p in word_positions(m, name) {
+        if dep[p] != 0 {
             continue;
         }
-        if let Some(rest) = line.trim_start().strip_prefix("//!") {
+        // preceded by `fn`
+        let mut q = p;
+        while q > 0 && m[q - 1].is_ascii_whitespace() {
+            q -= 1;
+        }
+        if q < 2 || &m[q - 2..q] != b"fn" || (q > 2 && is_id(m[q - 3])) {
+            continue;
+        }
+        let open = skip_ws(m, p + name.len());
+        if open >= m.len() || m[open] != b'(' {
+            continue;
+        }
+        let close = matching(m, open)?;
+        // the body: the first `{` after the parameter list (a return type holds no brace here)
+        let mut bo = close + 1;
+        while bo < m.len() && m[bo] != b'{' && m[bo] != b';' {
+            bo += 1;
+        }
+        if bo >= m.len() || m[bo] != b'{' {
+            continue;
+        }
+        let bc = matching(m, bo)?;
+        let mut params = vec![];
+        for (a, b) in split_top(m, open + 1, close) {
+            let s = String::from_utf8_lossy(&m[a..b]).to_string();
+            let pat = s.split(':').next().unwrap_or("").trim().to_string();
+            let nm = pat.strip_prefix("mut ").unwrap_or(&pat).trim().to_string();
+            if nm.is_empty() || !nm.bytes().all(is_id) {
+                return None;
+            }
+            params.push(nm);
+        }
+        found.push(FnDef { params_text: text[open + 1..close].to_string(), params, body: m[bo..=bc].to_vec() });
+    }
+    if found.len() == 1 {
+        found.pop()
+    } else {
+        None
+    }
+}
+
+/// paths `a::b::c` called in `body` as `path(p0, p1, …)` with exactly the argument list `args`
+fn callees_with_args(body: &[u8], args: &[String]) -> Vec<String> {
+    let mut out: Vec<String> = vec![];
+    let mut i = 0;
+    while i < body.len() {
+        if !(body[i].is_ascii_alphabetic() || body[i] == b'_') || (i > 0 && (is_id(body[i - 1]) || body[i - 1] == b'.')) {
+            i += 1;
+            continue;
+        }
+        // a path: ident (:: ident)*
+        let start = i;
+        let mut j = i;
+        loop {
+            while j < body.len() && is_id(body[j]) {
+                j += 1;
+            }
+            if j + 2 < body.len() && &body[j..j + 2] == b"::" && (body[j + 2].is_ascii_alphabetic() || body[j + 2] == b'_') {
+                j += 2;
+            } else {
+                break;
+            }
+        }
+        let path = String::from_utf8_lossy(&body[start..j]).to_string();
+        let open = skip_ws(body, j);
+        i = j.max(i + 1);
+        if open >= body.len() || body[open] != b'(' {
+            continue;
+        }
+        // not a definition `fn path(`
+        let mut q = start;
+        while q > 0 && body[q - 1].is_ascii_whitespace() {
+            q -= 1;
+        }
+        if q >= 2 && &body[q - 2..q] == b"fn" {
+            continue;
+        }
+        let close = match matching(body, open) {
+            Some(c) => c,
+            None => continue,
+        };
+        let got: Vec<String> = split_top(body, open + 1, close).iter().map(|&(a, b)| String::from_utf8_lossy(&body[a..b]).trim().to_string()).collect();
+        if got == args && !out.contains(&path) {
+            out.push(path);
+        }
+    }
+    out
+}
+
+/// `path` names something defined *inside* `body` (a nested fn: not reachable from outside)
+fn defined_inside(body: &[u8], path: &str) -> bool {
+    if path.contains("::") {
+        return false;
+    }
+    word_positions(body, path).iter().any(|&p| {
+        let mut q = p;
+        while q > 0 && body[q - 1].is_ascii_whitespace() {
+            q -= 1;
+        }
+        q >= 2 && &body[q - 2..q] == b"fn"
+    })
+}
+
+struct File {
+    /// path relative to OUT_DIR/mem
+    rel: PathBuf,
+    /// module path from the root of `mem` ("" = root, "copy", "a::b")
+    modpath: String,
+    text: String,
+}
+
+fn collect(dir: &Path, rel: &Path, files: &mut Vec<(PathBuf, PathBuf)>) {
+    let mut entries: Vec<_> = match fs::read_dir(dir) {
+        Ok(e) => e.filter_map(|x| x.ok()).collect(),
+        Err(_) => return,
+    };
+    entries.sort_by_key(|e| e.file_name());
+    for e in entries {
+        let p = e.path();
+        let r = rel.join(e.file_name());
+        if p.is_dir() {
+            collect(&p, &r, files);
+        } else if p.extension().map_or(false, |x| x == "rs") {
+            files.push((p, r));
+        }
+    }
+}
+
+/// the substitutions described at the top; returns (text, number of no_mangle attributes dropped)
+fn preprocess(text: &str) -> (String, usize) {
+    let m = mask(text);
+    let mut drop = vec![false; text.len()];
+    let mut stripped = 0;
+    for pat in ["#[no_mangle]", "#[unsafe(no_mangle)]"] {
+        let pb = pat.as_bytes();
+        if m.len() < pb.len() {
+            continue;
+        }
+        for i in 0..=m.len() - pb.len() {
+            if &m[i..i + pb.len()] == pb {
+                stripped += 1;
+                for d in &mut drop[i..i + pb.len()] {
+                    *d = true;
+                }
+            }
+        }
+    }
+    let kept: Vec<u8> = text.bytes().enumerate().filter(|(k, _)| !drop[*k]).map(|(_, c)| c).collect();
+    let kept = String::from_utf8(kept).expect("utf8");
+    let mut out = String::new();
+    for (ln, orig) in kept.lines().zip(text.lines()) {
+        // a line that held nothing but the attribute disappears (as before)
+        if ln.trim().is_empty() && !orig.trim().is_empty() {
+            continue;
+        }
+        if let Some(rest) = ln.trim_start().strip_prefix("//!") {
             out.push_str("//");
             out.push_str(rest);
         } else {
-            out.push_str(line);
+            out.push_str(ln);
         }
         out.push('\n');
     }
-    assert!(stripped >= 5, "expected the five #[no_mangle] symbols in mem.rs, found {stripped}");
-    let dst = PathBuf::from(env::var("OUT_DIR").unwrap()).join("mem.rs");
-    fs::write(dst, out).unwrap();
+    (out, stripped)
+}
+
+fn main() {
+    let repo = env::var("VERIF_REPO").unwrap_or_else(|_| "/repo".to_string());
+    let glue = env::var("C08_GLUE").unwrap_or_else(|_| "all".to_string());
+    let (glue_fns, glue_consts) = (glue == "all" || glue == "fns", glue == "all" || glue == "consts");
+    let symdir = PathBuf::from(format!("{repo}/tiny-start/src/symbols"));
+    // the whole `symbols` directory: covers mem.rs, mem/ (recursively) and their appearing / disappearing
+    println!("cargo:rerun-if-changed={}", symdir.display());
+    println!("cargo:rerun-if-env-changed=VERIF_REPO");
+    println!("cargo:rerun-if-env-changed=C08_GLUE");
+    let out_dir = PathBuf::from(env::var("OUT_DIR").unwrap());
+    let out_mem = out_dir.join("mem");
+    let _ = fs::remove_dir_all(&out_mem);
+    let _ = fs::remove_file(out_dir.join("mem.rs"));
+    fs::create_dir_all(&out_mem).unwrap();
+
+    // --- collect: root (mem.rs, else mem/mod.rs) + everything below mem/
+    let mut srcs: Vec<(PathBuf, PathBuf)> = vec![];
+    collect(&symdir.join("mem"), Path::new(""), &mut srcs);
+    let root_file = symdir.join("mem.rs");
+    if root_file.exists() {
+        srcs.retain(|(_, r)| r != Path::new("mod.rs"));
+        srcs.insert(0, (root_file, PathBuf::from("mod.rs")));
+    } else {
+        let k = srcs.iter().position(|(_, r)| r == Path::new("mod.rs")).expect("neither symbols/mem.rs nor symbols/mem/mod.rs exists");
+        let r = srcs.remove(k);
+        srcs.insert(0, r);
+    }
+    let mut files: Vec<File> = vec![];
+    let mut stripped = 0;
+    for (src, rel) in srcs {
+        let text = fs::read_to_string(&src).unwrap_or_else(|e| panic!("read {}: {e}", src.display()));
+        let (text, s) = preprocess(&text);
+        stripped += s;
+        let mut comps: Vec<String> = rel.with_extension("").components().map(|c| c.as_os_str().to_string_lossy().to_string()).collect();
+        if comps.last().map_or(false, |c| c == "mod") {
+            comps.pop();
+        }
+        files.push(File { rel, modpath: comps.join("::"), text });
+    }
+    assert!(stripped >= 5, "expected the five #[no_mangle] symbols in symbols/mem.rs (+ symbols/mem/**), found {stripped}");
+
+    // --- glue (appended only)
+    let via = |modpath: &str, item: &str| if modpath.is_empty() { format!("super::{item}") } else { format!("super::{modpath}::{item}") };
+    let masks: Vec<Vec<u8>> = files.iter().map(|f| mask(&f.text)).collect();
+    let locate = |name: &str| -> Option<(usize, FnDef)> {
+        let mut hits: Vec<(usize, FnDef)> = vec![];
+        for (k, f) in files.iter().enumerate() {
+            if let Some(d) = find_fn(&f.text, &masks[k], name) {
+                hits.push((k, d));
+            }
+        }
+        if hits.len() == 1 {
+            hits.pop()
+        } else {
+            None
+        }
+    };
+    let usable = |d: &FnDef, exclude: &[String]| -> Vec<String> {
+        callees_with_args(&d.body, &d.params)
+            .into_iter()
+            .filter(|p| !SYMS.contains(&p.rsplit("::").next().unwrap_or("")) && !defined_inside(&d.body, p) && !exclude.contains(p))
+            .collect()
+    };
+    let mut appended: Vec<(usize, String)> = vec![];
+    let mut fwd: Option<(String, String)> = None; // (expression to call from verif, description)
+    let mut bwd: Option<(String, String)> = None;
+    if glue_fns {
+        let cpy = locate("memcpy").filter(|(_, d)| d.params.len() == 3);
+        let mov = locate("memmove").filter(|(_, d)| d.params.len() == 3);
+        let mut fwd_path: Option<(usize, String)> = None;
+        if let Some((k, d)) = &cpy {
+            let c = usable(d, &[]);
+            if c.len() == 1 {
+                appended.push((*k, format!("\n// --- appended by /verif/harness/c08/build.rs: what memcpy calls with (its own) (dest, src, n)\n#[allow(unused_mut, dead_code, clippy::all)]\npub unsafe fn __c08_fwd({}) {{\n    let _ = {}({});\n}}\n", d.params_text, c[0], d.params.join(", "))));
+                fwd = Some((via(&files[*k].modpath, "__c08_fwd"), format!("{}{}", if files[*k].modpath.is_empty() { String::new() } else { format!("{}::", files[*k].modpath) }, c[0])));
+                fwd_path = Some((*k, c[0].clone()));
+            }
+        }
+        if let (Some((k, d)), Some((fk, fp))) = (&mov, &fwd_path) {
+            // memmove calls the forward routine and exactly one other routine with (dest, src, n): the backward one
+            let all = callees_with_args(&d.body, &d.params);
+            if k == fk && all.contains(fp) {
+                let c = usable(d, &[fp.clone()]);
+                if c.len() == 1 {
+                    appended.push((*k, format!("\n// --- appended by /verif/harness/c08/build.rs: what memmove calls with (its own) (dest, src, n) besides the forward routine\n#[allow(unused_mut, dead_code, clippy::all)]\npub unsafe fn __c08_bwd({}) {{\n    let _ = {}({});\n}}\n", d.params_text, c[0], d.params.join(", "))));
+                    bwd = Some((via(&files[*k].modpath, "__c08_bwd"), format!("{}{}", if files[*k].modpath.is_empty() { String::new() } else { format!("{}::", files[*k].modpath) }, c[0])));
+                }
+            }
+        }
+    }
+    let mut consts: Option<Vec<String>> = None;
+    if glue_consts {
+        let mut refs = vec![];
+        for name in CONSTS {
+            let mut hits = vec![];
+            for (k, f) in files.iter().enumerate() {
+                let dep = depths(&masks[k]);
+                for p in word_positions(&masks[k], name) {
+                    let mut q = p;
+                    while q > 0 && masks[k][q - 1].is_ascii_whitespace() {
+                        q -= 1;
+                    }
+                    let after = skip_ws(&masks[k], p + name.len());
+                    if dep[p] == 0 && q >= 5 && &masks[k][q - 5..q] == b"const" && after < masks[k].len() && masks[k][after] == b':' {
+                        hits.push(k);
+                    }
+                }
+                let _ = f;
+            }
+            if hits.len() == 1 {
+                appended.push((hits[0], format!("\n// --- appended by /verif/harness/c08/build.rs\n#[allow(dead_code)]\npub const __C08_{name}: usize = {name};\n")));
+                refs.push(via(&files[hits[0]].modpath, &format!("__C08_{name}")));
+            }
+        }
+        if refs.len() == CONSTS.len() {
+            consts = Some(refs);
+        } else {
+            appended.retain(|(_, s)| !s.contains("pub const __C08_"));
+        }
+    }
+    for (k, s) in appended {
+        files[k].text.push_str(&s);
+    }
+    let sig = "d: *mut u8, s: *const u8, n: usize";
+    let mut verif = String::from("\n// --- appended by /verif/harness/c08/build.rs: the harness's entry points\n#[allow(dead_code, unused_imports, clippy::all)]\npub mod verif {\n");
+    for (nm, found) in [("fwd", &fwd), ("bwd", &bwd)] {
+        match found {
+            Some((call, desc)) => verif.push_str(&format!(
+                "    pub const {}: &str = \"{}\";\n    pub unsafe fn {}({sig}) {{\n        {}(d, s, n)\n    }}\n",
+                nm.to_uppercase(), desc, nm, call
+            )),
+            None => verif.push_str(&format!(
+                "    pub const {}: &str = \"memmove(helper-not-identified)\";\n    pub unsafe fn {}({sig}) {{\n        let _ = super::memmove(d, s, n);\n    }}\n",
+                nm.to_uppercase(), nm
+            )),
+        }
+    }
+    match &consts {
+        Some(r) => verif.push_str(&format!("    pub const CONSTS: Option<(usize, usize, usize)> = Some(({}, {}, {}));\n", r[0], r[1], r[2])),
+        None => verif.push_str("    pub const CONSTS: Option<(usize, usize, usize)> = None;\n"),
+    }
+    verif.push_str(&format!("    pub const GLUE: &str = \"{glue}\";\n}}\n"));
+    files[0].text.push_str(&verif);
+
+    for f in &files {
+        let dst = out_mem.join(&f.rel);
+        fs::create_dir_all(dst.parent().unwrap()).unwrap();
+        fs::write(&dst, &f.text).unwrap();
+    }
+    // mounted at the same place as in tiny-start (crate::symbols::mem), as a real module file (`mod x;` inside it
+    // resolves to OUT_DIR/mem/x.rs)
+    fs::write(
+        out_dir.join("mount.rs"),
+        format!("pub mod symbols {{\n    #[path = {:?}]\n    pub mod mem;\n}}\n", out_mem.join("mod.rs").display().to_string()),
+    )
+    .unwrap();
 }
